@@ -13,10 +13,23 @@ type Value interface{}
 
 // PtrV: pointer to (object, path). obj < 0 means the nil pointer. The shape is concrete, only
 // nil-ness may be symbolic (nonnil).
+//
+// A pointer may also be a guarded choice between several objects (the result of merging two
+// states in which a cell points to different objects): the primary alternative (obj, path)
+// holds under guard nonnil, the others under their own guards; guards are mutually exclusive
+// and the pointer is nil iff none holds. Loads through such a pointer are ite-merged, stores
+// are conditional updates of every alternative.
 type PtrV struct {
 	obj    int
 	path   []int
 	nonnil *Term
+	more   []PtrAlt
+}
+
+type PtrAlt struct {
+	obj  int
+	path []int
+	g    *Term
 }
 
 type IfaceV struct {
